@@ -30,6 +30,7 @@ ZERO = ["none", "int0", "strEmpty", "float0", "boolF"]
 F("DOC-no-type-no-prose-param-dropped", DOCP,
   "a parameter with neither type nor prose produces no line in a ReST docstring and disappears",
   ["NamePresent", "StyleDetected"], when={"k": "rest"}, slot=["none", "none", ANY, ANY, ANY])
+"""DISABLED
 F("NUMPYDOC-untyped-param", DOCP,
   "numpydoc scanner/parser mishandles an entry whose type is empty (`name :`): the entry, later entries, the summary and the "
   "return section are mis-attributed or lost, or the parser raises",
@@ -37,6 +38,7 @@ F("NUMPYDOC-untyped-param", DOCP,
    "RetKept.stop", "RetKept.ann", "ProseKept.base", "ProseKept.stop", "ProseKept.ann", "TypKept", "DefaultKept", "DefaultFill",
    "NeverRaises"],
   when={"k": "numpydoc", "step": "parse"}, any_slot=["none", ANY, ANY, ANY, ANY])
+"""
 F("NPG-force-future-default", DOCP,
   "numpydoc/google parser: once one entry has a default, every later entry without one (including the return entry) "
   "acquires the zero value of its type or None (`require_default`)",
@@ -148,7 +150,7 @@ F("FUNC-docstring-inferred-type-overrides-annotation", ALLP,
   "function/method with default text: the type inferred from the `Defaults to` value in the docstring (int/str/bool/float) takes "
   "precedence over the signature's annotation (Optional[..], Union[..], Literal[..])",
   ["TypKept"], obs=["int", "str", "bool", "float"], when={"k": FUN, "dd": True, "step": "parse"},
-  slot=[["OptInt", "OptStr", "OptBool", "UnionIntStr", "LitStr"], "own", ANY, ANY, ANY])
+  slot=[["OptInt", "OptStr", "OptBool", "UnionIntStr", "LitStr", "LitInt"], "own", ANY, ANY, ANY])
 F("FUNC-undocumented-kwargs-dropped", ALLP,
   "parse.function keeps a **kwargs parameter only when the docstring documents it",
   ["NamePresent"], when={"k": FUN, "step": "parse"}, slot=["OptDict", "none", ANY, ANY, ANY])
@@ -175,7 +177,7 @@ F("ARGPARSE-list-default", ALLP,
 F("ARGPARSE-zero-of-composite-is-empty-string", ALLP,
   "argparse: a required List[str] / Literal[..] option without default acquires '' (the zero of str), which is neither a list nor "
   "one of the choices",
-  ["DefaultFill"], obs=["strEmpty"], when={"k": "argparse", "step": "parse"}, slot=[["ListStr", "LitStr"], ANY, ANY, ANY, "absent"])
+  ["DefaultFill"], obs=["strEmpty"], when={"k": "argparse", "step": "parse"}, slot=[["ListStr", "LitStr", "LitInt"], ANY, ANY, ANY, "absent"])
 
 # ------------------------------------------------------------------------------------------------ later hops (C05, C08)
 ANYCL = ["NeverRaises", "EmitNeverRaises", "TextStable", "IrStable", "StyleDetected", "SummaryKept", "NamesOrder", "NoExtraNames",
@@ -184,7 +186,7 @@ ANYCL = ["NeverRaises", "EmitNeverRaises", "TextStable", "IrStable", "StyleDetec
 F("FOLLOW-UP-of-corrupt-state", ALLP,
   "follow-up of an earlier failure in the same scenario: the description this step starts from already contains a value outside "
   "the vocabulary (mangled prose / type / default reported at the hop that produced it)",
-  ANYCL, when={"hop": [2, 3]}, corrupt_before=True)
+  [c for c in ANYCL if c not in ("TextStable", "IrStable")], when={"hop": [2, 3]}, corrupt_before=True)
 F("NPG-second-pass-quoted-default-raises", ALLP,
   "numpydoc/google: re-parsing a docstring emitted from a description whose prose already carries `Defaults to \"...\"` raises "
   "ValueError (the quoted text is passed to a numeric conversion)",
@@ -214,7 +216,7 @@ F("NUMPYDOC-return-without-type-drift", ALLP,
 F("FOLLOW-UP-of-earlier-failure", ALLP,
   "later hop of a chain whose earlier hop already failed a clause (reported there): the intermediate description is not the one "
   "the chain was meant to carry, so further deviations are consequences",
-  ANYCL + ["ConfigTransparent"], when={"hop": [2, 3]}, after_earlier_failure=True)
+  [c for c in ANYCL if c not in ("TextStable", "IrStable")] + ["ConfigTransparent"], when={"hop": [2, 3]}, after_earlier_failure=True)
 
 # ------------------------------------------------------------------------------------------------ chains (C05)
 F("CHAIN-filled-empty-string-mangles-prose", ALLP,
@@ -286,7 +288,8 @@ F("SYNC-method-target-created-at-module-level", SYNCP,
 F("SYNC-second-run-reformats-module", SYNCP,
   "sync: a class appended to a file with other statements is written without reformatting them; the next run re-emits the "
   "whole module through black, so bytes change again on the second run (stable from the third)",
-  ["Idempotent"], when={"k": "sync", "target": "class", "changed": True, "pre": "mod-agree"})
+  ["Idempotent"], when={"k": "sync", "target": "class", "changed": True, "pre": "mod-agree", "step": 2,
+                        "init_pre": ["mod-absent", "mod-absent-nonl"]})
 F("SYNC-method-target-appended-every-run", SYNCP,
   "sync with a method target `C.f` that is never found appends another bare `def f` on every run (follows from "
   "SYNC-method-target-created-at-module-level)",
@@ -355,3 +358,19 @@ F("BODY-argparse-leading-string-expression-dropped", ["C16"],
   "emit.argparse_function takes a leading string expression of the carried statements for the docstring (already removed by the parser) "
   "and drops it (and an `argument_parser = ...` assignment after it)",
   ["Verbatim", "NoneDropped"], when={"k": "body", "kind": "argparse", "first": "strexpr"})
+
+F("CLASS-falsy-default-under-str-type", ALLP,
+  "class emitter: `quote(default) if default else zero` treats an explicit empty-string default of an Optional[str] attribute as missing "
+  "and writes None",
+  ["DefaultKept", "Denotes.AttrVal"], obs=["none"], when={"k": "class"}, slot=["OptStr", ANY, ANY, ANY, "strEmpty"])
+F("GOOGLE-empty-string-default-drift", ALLP,
+  "google: a `Defaults to ` sentence with nothing after it (empty-string default) loses / regains a trailing blank on every pass",
+  ["TextStable", "IrStable"], when={"k": "google", "dd": True, "hop": [2, 3]}, init_slot=[["str", "OptStr", "none"], ANY, ANY, ANY, ["strEmpty", "absent"]])
+F("ARGPARSE-int-literal-without-type", ALLP,
+  "argparse: Literal[5, 7] without a default is emitted as choices=(5, 7) with no type=int, so the option compares strings with ints and "
+  "reads back as Literal['5', '7']",
+  ["TypKept", "Denotes.OptType", "Chain.Typ"], when={"k": "argparse"}, slot=["LitInt", ANY, ANY, ANY, "absent"])
+F("SYNC-module-docstring-reindented", SYNCP,
+  "sync rewriting a class in place re-emits the module through ast_parse, which re-indents the module docstring "
+  "(`\\n    text\\n    `): the docstring statement of the target file changes",
+  ["FrameKept", "OldOrNew"], when={"k": "sync", "target": "class", "moddoc": True, "changed": True})
